@@ -24,7 +24,7 @@ def run(tier, R):
     R.trust("rustc MIR + resolution; mirfacts; mirlib")
     R.assume("field arithmetic implements the ring operations of GF(p) (C01, C11): the FORMULA rules give add / sub / mul / square / square2 / neg / invert their ring meaning and never enter the kernels; "
              "completeness of the addition law on the curve (no exceptional points for a = -1, d non-square) is the cited theorem of Hisil-Wong-Carter-Dawson / Bernstein-Lange, not re-proved; "
-             "the AVX2 parallel formulas are decided lane-wise (FieldElement2625x4 = four field elements; shuffle / blend move lanes); the IFMA formulas (nightly-only backend) are not")
+             "the AVX2 (and, in the thorough tier's ifma configuration, AVX-512 IFMA) parallel formulas are decided lane-wise (a vector = four field elements; shuffle / blend move lanes)")
     for (cfg, mode), F in FS.items():
         check_cfg(F, R, cfg)
 
@@ -361,15 +361,17 @@ def formulas(F, R, I, fe_ty):
         else:
             R.viol("C03.formula", I(inst), msg, F.loc(f) if f else "")
     R.floor("C03.formula", I("curve-model formulas decided against the addition law"), n, 24)
-    if any(re.search(r"backend::vector::avx2::edwards::ExtendedPoint$", p) for p in F.adts):
+    for backend in ("avx2", "ifma"):
+        if not any(re.search(r"backend::vector::%s::edwards::ExtendedPoint$" % backend, p) for p in F.adts):
+            continue
         nv = 0
-        for inst, f, ok, msg in FR.vector_cases(F, fe_ty):
+        for inst, f, ok, msg in FR.vector_cases(F, fe_ty, backend):
             nv += 1 if f else 0
             if ok:
                 R.ok("C03.formula", I(inst), msg)
             else:
                 R.viol("C03.formula", I(inst), msg, F.loc(f) if f else "")
-        R.floor("C03.formula", I("AVX2 parallel formulas decided against the addition law"), nv, 9)
+        R.floor("C03.formula", I("%s parallel formulas decided against the addition law" % backend), nv, 9)
 
 
 def short(f):
